@@ -103,3 +103,44 @@ def exprMapped (src gen : Bytes) (sm : SM) (value : Bytes) (srcFrom tgtFrom : Po
     decide (positionAt gen tp.index = tp)
 
 end TemplVerif.SourceMap
+
+/-! ## Symbol ranges (`AddSymbolRange`, `SymbolTargetRangeFromSource`, `SymbolSourceRangeFromTarget`)
+
+Two Go maps line → col → Range; as for the position tables, association lists in which a later entry for the same
+(line, col) wins. -/
+namespace TemplVerif.SourceMap
+open TemplVerif TemplVerif.Pos
+
+structure Rng where
+  from_ : Pos
+  to : Pos
+deriving DecidableEq, Repr
+
+structure SymEntry where
+  line : Nat
+  col : Nat
+  rng : Rng
+deriving DecidableEq, Repr
+
+structure Syms where
+  s2t : List SymEntry := []
+  t2s : List SymEntry := []
+deriving DecidableEq, Repr
+
+def symLookup (es : List SymEntry) (line col : Nat) : Option Rng :=
+  (es.reverse.find? fun e => e.line == line && e.col == col).map (·.rng)
+
+/-- `AddSymbolRange(src, tgt)` (after the repair: the per-line map is made only when the line has none) -/
+def addSymbol (m : Syms) (src tgt : Rng) : Syms :=
+  { s2t := m.s2t ++ [⟨src.from_.line, src.from_.col, tgt⟩],
+    t2s := m.t2s ++ [⟨tgt.from_.line, tgt.from_.col, src⟩] }
+
+def symTarget (m : Syms) (line col : Nat) : Option Rng := symLookup m.s2t line col
+def symSource (m : Syms) (line col : Nat) : Option Rng := symLookup m.t2s line col
+
+def addSymbols (adds : List (Rng × Rng)) : Syms := adds.foldl (fun m a => addSymbol m a.1 a.2) {}
+
+/-- the text a range covers -/
+def slice (s : Bytes) (r : Rng) : Bytes := (s.drop r.from_.index).take (r.to.index - r.from_.index)
+
+end TemplVerif.SourceMap
